@@ -125,47 +125,27 @@ example :
     a.WF ∧ b.WF ∧ (match union a b with | .ok d => d.records == [r2, r1, r2, r1] | .error _ => false) = true := by
   decide
 
-/-- `subset(**query)` is the linear scan — **provided** the query has at least one column
-condition or no coordinate window. -/
-theorem subset_filter_partial (db : Db) (q : Query) (hdb : ∀ r ∈ db.records, r.start < r.stop)
-    (hq : WindowOk q) (hcol : hasColumn q = true ∨ hasWindow q = false) :
+/-- `subset(**query)` is the linear scan, for every query (any subset of column conditions, any
+window mode, either `allow_partial`) and keeps the db class. -/
+theorem subset_filter (db : Db) (q : Query) (hdb : ∀ r ∈ db.records, r.start < r.stop) (hq : WindowOk q) :
     ∃ d, subset db q = .ok d ∧ d.kind = db.kind ∧ d.records = linearScan db.records q :=
-  subset_filter_aux db q hdb hcol (fun t ht => selectTable_spec clauses_ok t q ht hq)
+  subset_filter_aux db q hdb (fun t ht => selectTable_spec clauses_ok t q ht hq)
 
 example :
     let r1 := mkUserRec "s1" "gene" "a" (some "-") none [(2, 5)]
-    let db : Db := { kind := .basic, tables := [("user", [r1])] }
-    let q : Query := { seqid := some "s1", start := some 0, stop := some 11 }
-    hasColumn q = true ∧ (match subset db q with | .ok d => d.records == [r1] | .error _ => false) = true := by
+    let r2 := mkUserRec "s1" "gene" "b" (some "-") none [(12, 15)]
+    let db : Db := { kind := .basic, tables := [("user", [r1, r2])] }
+    let q : Query := { start := some 0, stop := some 11 }
+    (match subset db q with | .ok d => d.records == [r1] | .error _ => false) = true := by
   decide
-
-/- FULL STATEMENT (not proved): the same conclusion without `hcol`, i.e. for every query.
-   It is false of the mirrored model, because `subset` passes its `None`-valued keyword arguments
-   to `_matching_conditions`, whose `if conditions:` then contributes an empty conjunct and the
-   WHERE text becomes `" AND (start >= … )"`: sqlite raises `OperationalError`.  Witness below;
-   it is replayed on the real code by harness/c17.py (`check_witness`). -/
-theorem subset_window_only_counter :
-    subset { kind := .basic, tables := [("user", [mkUserRec "s1" "gene" "a" none none [(2, 5)]])] }
-      { start := some 0, stop := some 11 } = .error .operationalError := by
-  rfl
 
 /-- Loading a GFF file in one block gives one record per ID (rows merged), nothing else. -/
 theorem gff_load_one_block (rows : List GffRow) :
     loadGffBlocks [rows] = (mergeRows rows 0 []).1.map gffRec := by
-  simp [loadGffBlocks, loadBlock, foldl_const]
+  simp [loadGffBlocks, loadBlock, foldl_const, List.filter_true]
 
 example :
     (loadGffBlocks [[⟨some "c1", "s1", "CDS", "-", "ID=c1", 3, 4⟩, ⟨some "c1", "s1", "CDS", "-", "ID=c1", 8, 10⟩]]).map
       (fun r => (r.name, r.spans, r.start, r.stop)) = [(some "c1", [(2, 4), (7, 10)], 2, 10)] := by decide
-
-/- FULL STATEMENT (not proved): `∀ blocks, (loadGffBlocks blocks).Perm (loadGffBlocks [blocks.flatten])`
-   (the records do not depend on `lines_per_block`).  False of the mirrored model: when the rows of
-   one ID are split over two blocks, `_db_from_gff` rewrites only the `spans` column of the row it
-   already stored (`start`/`stop` stay stale) and then *also* inserts a second row for the same ID. -/
-theorem gff_blocks_counter :
-    (loadGffBlocks [[⟨some "c1", "s1", "CDS", "-", "ID=c1", 3, 4⟩], [⟨some "c1", "s1", "CDS", "-", "ID=c1", 8, 10⟩]]).map
-      (fun r => (r.name, r.spans, r.start, r.stop)) =
-      [(some "c1", [(2, 4), (7, 10)], 2, 4), (some "c1", [(7, 10)], 7, 10)] := by
-  decide
 
 end CogentModel.C17
